@@ -147,6 +147,16 @@ class _Stmts(ast.NodeTransformer):
                 r = self.visit_Assign(o)
                 res.extend(r if isinstance(r, list) else [r])
             return res
+        # N10  r, c = X.shape  ->  r = X.shape[0]; c = X.shape[1]
+        if len(node.targets) == 1 and isinstance(node.targets[0], (ast.Tuple, ast.List)) and \
+                isinstance(node.value, ast.Attribute) and node.value.attr == 'shape' and _is_path(node.value.value) \
+                and all(isinstance(t, ast.Name) for t in node.targets[0].elts):
+            self.changed = True
+            out = []
+            for i, t in enumerate(node.targets[0].elts):
+                sub = ast.Subscript(value=copy.deepcopy(node.value), slice=ast.Constant(value=i), ctx=ast.Load())
+                out.append(ast.copy_location(ast.Assign(targets=[t], value=sub), node))
+            return out
         # N2
         if len(node.targets) == 1 and isinstance(node.targets[0], (ast.Tuple, ast.List)) and \
                 isinstance(node.value, (ast.Tuple, ast.List)) and \
@@ -350,11 +360,34 @@ def _writes_all_before(fn, assign, attrs):
 
 
 def _bound_by_enclosing_loop(fn, name, assign):
-    """`name` is bound only as the target of a for loop whose body contains `assign`"""
+    """`assign` lies in the body of a for loop whose target binds `name`"""
     for n in _walk_scope(fn):
-        if isinstance(n, ast.For) and name in _names(n.target):
-            return any(x is assign for b in n.body for x in ast.walk(b))
+        if isinstance(n, ast.For) and name in _names(n.target) and \
+                any(x is assign for b in n.body for x in ast.walk(b)):
+            return True
     return False
+
+
+def _only_loop_bound(fn, name):
+    """every binding of `name` in the function is a for / comprehension target (never a parameter,
+    an assignment, an import ...)"""
+    if name in _params(fn):
+        return False
+    for n in _walk_scope(fn):
+        if isinstance(n, ast.Name) and n.id == name and isinstance(n.ctx, (ast.Store, ast.Del)):
+            pass
+    loop_ids = set()
+    for n in _walk_scope(fn):
+        if isinstance(n, (ast.For, ast.AsyncFor, ast.comprehension)):
+            for x in ast.walk(n.target):
+                if isinstance(x, ast.Name) and x.id == name:
+                    loop_ids.add(id(x))
+    for n in _walk_scope(fn):
+        if isinstance(n, ast.Name) and n.id == name and isinstance(n.ctx, (ast.Store, ast.Del)) and id(n) not in loop_ids:
+            return False
+        if isinstance(n, (ast.Global, ast.Nonlocal)) and name in n.names:
+            return False
+    return bool(loop_ids)
 
 
 def _in_loop(fn, assign):
@@ -405,7 +438,7 @@ def normalize_function(fn, resolver=None):
                 c = counts.get(r, 0)
                 if r in params and c == 2:
                     continue                      # a parameter that is never rebound
-                if c == 2 and _bound_by_enclosing_loop(new, r, asg):
+                if _only_loop_bound(new, r) and _bound_by_enclosing_loop(new, r, asg):
                     continue                      # the loop variable of a loop around the definition
                 ok = False
             if not ok:
